@@ -102,7 +102,14 @@ impl Dir {
             let mut entries = fetch_entries(dir_path.clone())?;
             while let Some(entry) = entries.pop() {
                 if entry.is_file() {
-                    let path_Segments = entry.canonicalize()?
+                    let canonical = entry.canonicalize()?;
+                    if !canonical.starts_with(&dir_path) {
+                        return Err(std::io::Error::new(
+                            std::io::ErrorKind::InvalidInput,
+                            format!("`{}` points outside of `{}`", entry.display(), dir_path.display())
+                        ))
+                    }
+                    let path_Segments = canonical
                         .components()
                         .skip(dir_path.components().count())
                         .map(|c| c.as_os_str().to_os_string()
